@@ -110,11 +110,11 @@ def p_expression_lambda(p):
 
 
 def p_dict_item(p):
-    """ dict_item : dict_item COMMA dict_item
+    """ dict_item : dict_item COMMA expression COLON expression
                   | expression COLON expression
     """
     if p.slice[1].type == 'dict_item':
-        p[0] = p[1] + p[3]
+        p[0] = p[1] + [(p[3], p[5])]
     else:
         p[0] = [(p[1], p[3])]
 
